@@ -116,6 +116,11 @@ func (s *simAtomix) gateCall(ctx context.Context, method string) {
 
 func (s *simAtomix) gateUnary(ctx context.Context, req interface{}, info *grpc.UnaryServerInfo, handler grpc.UnaryHandler) (interface{}, error) {
 	s.gateCall(ctx, info.FullMethod)
+	// split steps park at every data call of a reconcile step, reads included (Create / Close are issued under the
+	// stores' mutexes and are never held)
+	if !strings.HasSuffix(info.FullMethod, "/Create") && !strings.HasSuffix(info.FullMethod, "/Close") {
+		s.fuse.Gate("store")
+	}
 	return handler(ctx, req)
 }
 
